@@ -1,6 +1,177 @@
-import PppModel.Auto
+import PppModel.Lemmas.V2Blame
+import PppModel.Lemmas.V1Blame
+import PppModel.Lemmas.AutoDetect
+import PppModel.Props.C06
 
-/-! # C12 (theorems under construction) -/
+/-!
+# C12 — a single malformed element is rejected terminally and blamed on the right field
+
+The general statements live in `Lemmas/V2Blame.lean` (`V2.blame_*`: any input
+whose element is bad, whatever the rest looks like) and `Lemmas/V1Blame.lean`
+(`V1.Blame.G1 … G11`). This file states the property in its "exactly one element
+of a well-formed header" form.
+-/
 
 namespace C12
+open V2
+
+/-! ## version 2: `Spec.V2.encode cmd tr addr rest ++ trail` with one element replaced -/
+
+/-- Any altered signature byte: `Prefix`. -/
+theorem v2_signature (cmd : Command) (tr : Transport) (addr : Addresses) (rest trail : B)
+    (i : Nat) (v : UInt8) (hi : i < 12) (hv : v ≠ byteAt Spec.V2.signature i) :
+    V2.parse ((Spec.V2.encode cmd tr addr rest ++ trail).set i v) = .error .badPrefix :=
+  set_signature cmd tr addr rest trail i v hi hv
+
+/-- Every invalid version nibble: `Version`, carrying the offending nibble in place. -/
+theorem v2_version (cmd : Command) (tr : Transport) (addr : Addresses) (rest trail : B)
+    (b : UInt8) (hv : b &&& 0xF0 ≠ 0x20) :
+    V2.parse ((Spec.V2.encode cmd tr addr rest ++ trail).set 12 b) = .error (.version (b &&& 0xF0)) :=
+  set_version cmd tr addr rest trail b hv
+
+/-- Every invalid command nibble: `Command`. -/
+theorem v2_command (cmd : Command) (tr : Transport) (addr : Addresses) (rest trail : B)
+    (b : UInt8) (hv : b &&& 0xF0 = 0x20) (hc : b &&& 0x0F ≠ 0 ∧ b &&& 0x0F ≠ 1) :
+    V2.parse ((Spec.V2.encode cmd tr addr rest ++ trail).set 12 b) = .error (.command (b &&& 0x0F)) :=
+  set_command cmd tr addr rest trail b hv hc
+
+/-- Every invalid address-family nibble: `AddressFamily`. -/
+theorem v2_family (cmd : Command) (tr : Transport) (addr : Addresses) (rest trail : B) (b : UInt8)
+    (hf : b &&& 0xF0 ≠ 0x00 ∧ b &&& 0xF0 ≠ 0x10 ∧ b &&& 0xF0 ≠ 0x20 ∧ b &&& 0xF0 ≠ 0x30) :
+    V2.parse ((Spec.V2.encode cmd tr addr rest ++ trail).set 13 b) = .error (.addressFamily (b &&& 0xF0)) :=
+  set_family cmd tr addr rest trail b hf
+
+/-- Every invalid transport nibble: `Protocol`. -/
+theorem v2_transport (cmd : Command) (tr : Transport) (addr : Addresses) (rest trail : B) (b : UInt8)
+    (hf : b &&& 0xF0 = 0x00 ∨ b &&& 0xF0 = 0x10 ∨ b &&& 0xF0 = 0x20 ∨ b &&& 0xF0 = 0x30)
+    (ht : b &&& 0x0F ≠ 0 ∧ b &&& 0x0F ≠ 1 ∧ b &&& 0x0F ≠ 2) :
+    V2.parse ((Spec.V2.encode cmd tr addr rest ++ trail).set 13 b) = .error (.protocol (b &&& 0x0F)) :=
+  set_transport cmd tr addr rest trail b hf ht
+
+/-- Every declared length too small for the family: `InvalidAddresses`, carrying the
+length and the required size. -/
+theorem v2_length (cmd : Command) (tr : Transport) (addr : Addresses) (rest trail : B)
+    (l : Nat) (hl16 : l < 65536) (hl : l < Spec.V2.familySize addr.family) :
+    V2.parse (((Spec.V2.encode cmd tr addr rest ++ trail).set 14 (UInt8.ofNat (l / 256))).set 15
+        (UInt8.ofNat (l % 256))) = .error (.invalidAddresses l (Spec.V2.familySize addr.family)) :=
+  set_length cmd tr addr rest trail l hl16 hl
+
+/-- All of these are terminal. -/
+theorem v2_terminal :
+    ParseError.badPrefix.isIncomplete = false ∧
+    (∀ v, (ParseError.version v).isIncomplete = false) ∧
+    (∀ c, (ParseError.command c).isIncomplete = false) ∧
+    (∀ a, (ParseError.addressFamily a).isIncomplete = false) ∧
+    (∀ p, (ParseError.protocol p).isIncomplete = false) ∧
+    (∀ l s, (ParseError.invalidAddresses l s).isIncomplete = false) := blame_terminal
+
+/-- A terminal v2 error never makes the auto-detecting parser wait: it is handed to
+the text parser, whose verdict on a binary header (first byte CR followed by LF
+CR …, i.e. `\r\n\r` — the byte after the first CR is present) is terminal too. -/
+theorem v2_auto_terminal (x : B) (e : ParseError) (h : V2.parse x = .error e) (he : e.isIncomplete = false) :
+    Auto.parse x = .v1 (V1.parseBytes x) := by
+  rw [C06.auto_def, h]; simp [he]
+
+/-! ## version 1: `PROXY <proto> <src> <dst> <sport> <dport> CR LF` with one element replaced
+
+`V1.Blame.tcpLine kw proto sa da sp dp ending` is the line with its six elements
+and its ending; `V1.Blame.Blamed line e` packages: `parse_header line = e`, `e` is
+terminal, and both entry points return `e` on `line ++ rest`. -/
+
+open V1 V1.Blame in
+/-- The keyword. -/
+theorem v1_keyword {kw proto sa da sp dp : B} {c : UInt8} (hkw : sepFree kw) (hproto : sepFree proto)
+    (hsa : sepFree sa) (hda : sepFree da) (hsp : sepFree sp) (hdp : sepFree dp)
+    (hne : kw ≠ PROXY) (hlen : (tcpLine kw proto sa da sp dp [CR, c]).length ≤ 107) :
+    Blamed (tcpLine kw proto sa da sp dp [CR, c]) .invalidPrefix :=
+  G1_keyword_entry hkw hproto hsa hda hsp hdp hne hlen
+
+open V1 V1.Blame in
+/-- The protocol (anything but the three keywords, including truncated / extended / wrong-case ones). -/
+theorem v1_protocol {proto sa da sp dp : B} {c : UInt8} (hproto : sepFree proto)
+    (hsa : sepFree sa) (hda : sepFree da) (hsp : sepFree sp) (hdp : sepFree dp)
+    (h4 : proto ≠ TCP4) (h6 : proto ≠ TCP6) (hu : proto ≠ UNKNOWN)
+    (hlen : (tcpLine PROXY proto sa da sp dp [CR, c]).length ≤ 107) :
+    Blamed (tcpLine PROXY proto sa da sp dp [CR, c]) .invalidProtocol :=
+  G2_protocol_entry hproto hsa hda hsp hdp h4 h6 hu hlen
+
+open V1 V1.Blame in
+/-- The source address (TCP4; `G3_source_tcp6_entry` for TCP6) — in particular an
+address of the other family. -/
+theorem v1_source_address {sa da sp dp : B} {c : UInt8}
+    (hsa : sepFree sa) (hda : sepFree da) (hsp : sepFree sp) (hdp : sepFree dp)
+    (h : StdNet.parseIpv4 sa = none) (hlen : (tcpLine PROXY TCP4 sa da sp dp [CR, c]).length ≤ 107) :
+    Blamed (tcpLine PROXY TCP4 sa da sp dp [CR, c]) .invalidSourceAddress :=
+  G3_source_tcp4_entry hsa hda hsp hdp h hlen
+
+open V1 V1.Blame in
+/-- The destination address. -/
+theorem v1_destination_address {sa da sp dp : B} {c : UInt8} {a : Ip4}
+    (hsa : sepFree sa) (hda : sepFree da) (hsp : sepFree sp) (hdp : sepFree dp)
+    (hs : StdNet.parseIpv4 sa = some a) (h : StdNet.parseIpv4 da = none)
+    (hlen : (tcpLine PROXY TCP4 sa da sp dp [CR, c]).length ≤ 107) :
+    Blamed (tcpLine PROXY TCP4 sa da sp dp [CR, c]) .invalidDestinationAddress :=
+  G4_destination_tcp4_entry hsa hda hsp hdp hs h hlen
+
+open V1 V1.Blame in
+/-- The source port (out of range, signed, zero-padded, empty, non-numeric: whatever
+`parsePort` refuses — by `V1.parsePort_iff` that is everything but plain decimal 0–65535). -/
+theorem v1_source_port {sa da sp dp : B} {c : UInt8} {a b : Ip4} {k : Option StdInt.IntErrorKind}
+    (hsa : sepFree sa) (hda : sepFree da) (hsp : sepFree sp) (hdp : sepFree dp)
+    (hs : StdNet.parseIpv4 sa = some a) (hd : StdNet.parseIpv4 da = some b) (h : parsePort sp = .error k)
+    (hlen : (tcpLine PROXY TCP4 sa da sp dp [CR, c]).length ≤ 107) :
+    Blamed (tcpLine PROXY TCP4 sa da sp dp [CR, c]) (.invalidSourcePort k) :=
+  G5_source_port_tcp4_entry hsa hda hsp hdp hs hd h hlen
+
+open V1 V1.Blame in
+/-- The destination port. -/
+theorem v1_destination_port {sa da sp dp : B} {c : UInt8} {a b : Ip4} {p : UInt16}
+    {k : Option StdInt.IntErrorKind}
+    (hsa : sepFree sa) (hda : sepFree da) (hsp : sepFree sp) (hdp : sepFree dp)
+    (hs : StdNet.parseIpv4 sa = some a) (hd : StdNet.parseIpv4 da = some b) (hp : parsePort sp = .ok p)
+    (h : parsePort dp = .error k) (hlen : (tcpLine PROXY TCP4 sa da sp dp [CR, c]).length ≤ 107) :
+    Blamed (tcpLine PROXY TCP4 sa da sp dp [CR, c]) (.invalidDestinationPort k) :=
+  G6_destination_port_tcp4_entry hsa hda hsp hdp hs hd hp h hlen
+
+open V1 V1.Blame in
+/-- The byte that follows the CR. -/
+theorem v1_suffix {sa da sp dp : B} {c : UInt8} {a b : Ip4} {p q : UInt16}
+    (hsa : sepFree sa) (hda : sepFree da) (hsp : sepFree sp) (hdp : sepFree dp)
+    (hs : StdNet.parseIpv4 sa = some a) (hd : StdNet.parseIpv4 da = some b) (hp : parsePort sp = .ok p)
+    (hq : parsePort dp = .ok q) (hc : c ≠ LF) (hlen : (tcpLine PROXY TCP4 sa da sp dp [CR, c]).length ≤ 107) :
+    Blamed (tcpLine PROXY TCP4 sa da sp dp [CR, c]) .invalidSuffix :=
+  G7_suffix_tcp4_entry hsa hda hsp hdp hs hd hp hq hc hlen
+
+open V1 V1.Blame in
+/-- The 107-byte limit and invalid UTF-8 (entry-point level). -/
+theorem v1_limit_and_utf8 (x : B) :
+    (windowLength x = none → parseBytes x = .error (.parse .headerTooLong) ∧ parseStr x = .error .headerTooLong) ∧
+    (∀ n, windowLength x = some n → 107 < n → n ≤ x.length → Utf8.valid (x.take n) = true →
+      parseBytes x = .error (.parse .headerTooLong)) ∧
+    (∀ n, windowLength x = some n → Utf8.valid (x.take n) = false → parseBytes x = .error .invalidUtf8) :=
+  ⟨G8_window_none, fun _ h hn hl hv => G8_parseBytes_too_long h hn hl hv, fun _ h hv => G9_invalid_utf8 h hv⟩
+
+/-- A blamed text line is terminal through the auto-detecting parser as well
+(a text line does not start with the CR of the v2 signature). -/
+theorem v1_auto_terminal {line : B} {e : V1.ParseError} (hb : V1.Blame.Blamed line e) (rest : B)
+    (hv : Utf8.valid line = true) {c : UInt8} (hh : line.head? = some c) (hc : c ≠ 0x0D) :
+    Auto.parse (line ++ rest) = .v1 (.error (.parse e)) ∧ (Auto.parse (line ++ rest)).isIncomplete = false := by
+  have h2 : V2.parse (line ++ rest) = .error .badPrefix := by
+    apply V2.parse_badPrefix_of_head (c := c) _ hc
+    cases line with
+    | nil => simp at hh
+    | cons d ds => simpa using hh
+  have h1 := hb.bytes rest hv
+  have : Auto.parse (line ++ rest) = .v1 (.error (.parse e)) := by
+    rw [C06.auto_def, h2, h1]; rfl
+  refine ⟨this, ?_⟩
+  rw [this]
+  simpa [Auto.HeaderResult.isIncomplete, Auto.isIncompleteV1] using hb.terminalBytes
+
+/-- Non-vacuity (evaluated): one corrupted element each. -/
+example : V2.parse ((Spec.V2.encode .proxy .stream (.ipv4 ⟨⟨1,2,3,4⟩, 80, ⟨5,6,7,8⟩, 443⟩) []).set 12 0x31) =
+    .error (.version 0x30) := by decide
+example : V1.parseBytes [0x50,0x52,0x4F,0x58,0x59,0x20,0x54,0x43,0x50,0x0D,0x0A] =
+    .error (.parse .invalidProtocol) := by decide
+
 end C12
